@@ -27,16 +27,23 @@ def bit(x):
 def wait_design(kind, n, allow_zero=False):
     """kind: const | rt | waiter | waiter_rt"""
     lines = [HEADER, "class W(cohdl.Entity):", "    clk = Port.input(Bit)", "    reset = Port.input(Bit)", "    start = Port.input(Bit)"]
-    if kind in ("rt", "waiter_rt"):
+    if kind in ("rt", "waiter_rt", "rt_sig", "waiter_rt_sig"):
         lines.append("    n = Port.input(Unsigned[3])")
     lines += ["    busy = Port.output(Bit, default=False)", "    done = Port.output(Bit, default=False)", "    def architecture(self):"]
     if kind.startswith("waiter"):
-        lines.append("        waiter = std.Waiter(7)")
-    arg = "self.n" if kind in ("rt", "waiter_rt") else str(n)
+        lines.append(f"        waiter = std.Waiter({max(7, n or 0)})")
+    registered = kind.endswith("_sig")
+    kind = kind[:-4] if registered else kind
+    if registered:
+        # the run-time duration is a local signal whose declared value is 1 and that is written by a process defined later
+        lines.append("        dur = Signal[Unsigned[3]](1, name='dur')")
+    arg = ("dur" if registered else "self.n") if kind in ("rt", "waiter_rt") else str(n)
     call = f"std.wait_for({arg}{', allow_zero=True' if allow_zero else ''})" if not kind.startswith("waiter") else f"waiter.wait_for({arg})"
     lines += ["        @std.sequential(std.Clock(self.clk), std.Reset(self.reset))", "        async def proc():",
               "            await self.start", "            self.busy <<= True", f"            await {call}",
               "            self.busy <<= False", "            self.done ^= True"]
+    if registered:
+        lines += ["        @std.sequential(std.Clock(self.clk))", "        def feed():", "            dur.next = self.n"]
     return "\n".join(lines) + "\n"
 
 
@@ -71,6 +78,16 @@ class WaitMonitor(Monitor):
         self.st, self.rem, self.busy, self.done = n_st, n_rem, n_busy, n_done
         self.check(D.v_eq(outs["busy"], self.busy, 1), "busy differs from 'n clock steps after reached'")
         self.check(D.v_eq(outs["done"], self.done, 1), "done pulse at the wrong clock")
+
+
+class WaitRegisteredMonitor(WaitMonitor):
+    """the duration is read from a register (declared value 1) that follows the input n with one clock delay"""
+
+    def step(self, i, ins, outs):
+        if not hasattr(self, "_n_reg"):
+            self._n_reg = 1
+        super().step(i, {**ins, "n": self._n_reg}, outs)
+        self._n_reg = ins["n"]
 
 
 # ------------------------------------------------------------------ delayed / DelayLine
@@ -364,6 +381,8 @@ def jobs(tier):
     js.append(("wait_for|runtime", wait_design("rt", None), {"reset": 1, "start": 1, "n": 3}, ["busy", "done"], 14 if tier == "quick" else 20, lambda: WaitMonitor(None, True, False)))
     js.append(("wait_for|runtime|allow_zero", wait_design("rt", None, True), {"reset": 1, "start": 1, "n": 3}, ["busy", "done"], 14 if tier == "quick" else 20, lambda: WaitMonitor(None, True, True)))
     js.append(("Waiter.wait_for|runtime", wait_design("waiter_rt", None), {"reset": 1, "start": 1, "n": 3}, ["busy", "done"], 14 if tier == "quick" else 20, lambda: WaitMonitor(None, True, False)))
+    js.append(("wait_for|runtime|registered duration", wait_design("rt_sig", None), {"reset": 1, "start": 1, "n": 3}, ["busy", "done"], 14 if tier == "quick" else 20, lambda: WaitRegisteredMonitor(None, True, False)))
+    js.append(("Waiter.wait_for|runtime|registered duration", wait_design("waiter_rt_sig", None), {"reset": 1, "start": 1, "n": 3}, ["busy", "done"], 14 if tier == "quick" else 20, lambda: WaitRegisteredMonitor(None, True, False)))
     for n in (0, 1, 2, 4):
         for initial in (None, 2):
             if n == 0 and initial is not None:
